@@ -17,7 +17,7 @@ import sys
 import time
 
 import vlib
-from props import PROPS, HARNESS_DOC
+from props import PROPS, HARNESS_DOC, QUICK_NO_COVERS
 
 VERIF = vlib.VERIF
 
@@ -197,7 +197,8 @@ def main():
                 bump(2)
             for h in hs:
                 r = res["harnesses"].get(h)
-                c = vlib.classify(r, spec.get("expect_covers", {}).get(h))
+                c = vlib.classify(r, spec.get("expect_covers", {}).get(h),
+                                  no_covers=(tier == "quick" and h in QUICK_NO_COVERS))
                 harness_results[h] = {"class": c, "time_s": r and r["time_s"], "checks": r and r["checks"],
                                       "covers": r and [r["covers_sat"], r["covers"]],
                                       "failed_checks": r and r["failed_checks"][:6]}
@@ -314,7 +315,7 @@ def finish(ev, prop, t0, hres, spec, messages, exit_code):
         "samples": [{"harness": h, "what": HARNESS_DOC.get(h, ""), **r} for h, r in sorted(hres.items())][:60],
         "evaluations": max(1, n),
         "distinct_nontrivial": max(2, passed) if passed >= 2 else passed,
-        "rule": "one evaluation = one Kani harness (a fixed shape with symbolic numbers/flags/dates) decided by CBMC over every value in the stated ranges; non-trivial = verdict SUCCESSFUL with every cover witness satisfied and unwinding assertions holding",
+        "rule": "one evaluation = one Kani harness (a fixed shape with symbolic numbers/flags/dates) decided by CBMC over every value in the stated ranges; non-trivial = verdict SUCCESSFUL with every cover witness satisfied (window harnesses carry witnesses in the thorough tier only) and unwinding assertions holding",
         "harnesses_total": n,
         "harnesses_passed": passed,
         "cbmc_checks_discharged": checks,
